@@ -178,6 +178,9 @@ func (i *Index) unmarshalBinary(data []byte) error {
 		return fmt.Errorf("failed to read capacity: %w", err)
 	}
 	i.capacity = slottools.Uint64FromLEBytes(capacityBuf)
+	if i.capacity > uint64(reader.Len())/4 {
+		return fmt.Errorf("capacity %d exceeds the %d bytes of values in the index", i.capacity, reader.Len())
+	}
 
 	i.values = make([]int64, i.capacity)
 	for j := uint64(0); j < i.capacity; j++ {
